@@ -126,7 +126,7 @@ Lemma bal_zsum {A} (f : A -> list dedge) l e : bal (flat_map f l) e = zsum l (fu
 Proof. apply bal_flat_map. Qed.
 
 (* ---- the table facts, decided once *)
-Lemma cell_table_ok : cell_table_check = true.
+Lemma cell_table_ok : forallb cell_check cfgs = true.
 Proof. vm_compute. reflexivity. Qed.
 
 Lemma fpat_empty : fpat 0 0 = [] /\ fpat 1 0 = [] /\ fpat 2 0 = [].
@@ -135,8 +135,7 @@ Proof. vm_compute. repeat split. Qed.
 Lemma cell_identity cfg : (cfg < 256)%N -> forall e, bal (edges_of (cell_tris cfg)) e = bal (rhs cfg) e.
 Proof.
   intros H. apply bal_eq_check_sound.
-  pose proof cell_table_ok as T. unfold cell_table_check in T. rewrite forallb_forall in T.
-  apply T. now apply in_cfgs.
+  exact (forallb_cfgs cell_check cell_table_ok cfg H).
 Qed.
 
 (* per-face term: the canonical pattern of the signature of the lattice face (d, q), placed at q *)
@@ -148,6 +147,10 @@ Proof. destruct e as [u v]. unfold shiftE, mapE. cbn [fst snd]. now rewrite !shi
 Lemma negp_addp p q : addp (negp q) (negp p) = negp (addp p q).
 Proof. destruct p as [[a b] c], q as [[a' b'] c']. unfold addp, negp. repeat f_equal; lia. Qed.
 
+Lemma addp_unit x y z :
+  addp (x, y, z) (unit 0) = (x + 1, y, z) /\ addp (x, y, z) (unit 1) = (x, y + 1, z) /\ addp (x, y, z) (unit 2) = (x, y, z + 1).
+Proof. unfold addp, unit. simpl. rewrite !Z.add_0_r. auto. Qed.
+
 Lemma cell_balance sgn p e :
   bal (edges_of (cell_mesh sgn p)) e =
   (G sgn 0 p e - G sgn 0 (addp p (unit 0)) e) + (G sgn 1 p e - G sgn 1 (addp p (unit 1)) e) +
@@ -158,7 +161,9 @@ Proof.
   destruct (facesig_cfg_at sgn p 0) as [L0 U0]; [auto|].
   destruct (facesig_cfg_at sgn p 1) as [L1 U1]; [auto|].
   destruct (facesig_cfg_at sgn p 2) as [L2 U2]; [auto|].
-  rewrite L0, U0, L1, U1, L2, U2. unfold G. ring.
+  rewrite L0, U0, L1, U1, L2, U2. unfold G.
+  repeat match goal with |- context [bal ?l ?x] => let t := fresh "t" in generalize (bal l x); intro t end.
+  ring.
 Qed.
 
 Lemma G_outside sgn d q e : d = 0 \/ d = 1 \/ d = 2 ->
@@ -190,7 +195,9 @@ Proof.
                                + zsum (cellsZ ny) (fun y => zsum (cellsZ nz) (fun z => G sgn 2 (x, y, z) e - G sgn 2 (x, y, z + 1) e)))).
   2:{ intros x _. rewrite <- zsum_sub, <- !zsum_add. apply zsum_ext; intros y _.
       rewrite <- zsum_sub, <- !zsum_add. apply zsum_ext; intros z _.
-      rewrite cell_balance. unfold addp, unit. cbn [Z.eqb]. rewrite !Z.add_0_r. ring. }
+      rewrite cell_balance. destruct (addp_unit x y z) as (-> & -> & ->).
+      repeat match goal with |- context [G ?s ?d ?q ?x] => let t := fresh "t" in generalize (G s d q x); intro t end.
+      ring. }
   rewrite !zsum_add.
   rewrite (zsum_telescope (fun x => zsum (cellsZ ny) (fun y => zsum (cellsZ nz) (fun z => G sgn 0 (x, y, z) e)))).
   (* x faces *)
@@ -216,5 +223,5 @@ Proof.
       assert (Zf : forall z, z = 0 \/ z = Z.of_nat nz -> G sgn 2 (x, y, z) e = 0).
       { intros z Hz. apply G_outside; [auto|..]; unfold addp, fpt; cbn [Z.eqb]; apply B; lia. }
       rewrite (Zf 0), (Zf (Z.of_nat nz)) by auto. reflexivity. }
-  ring.
+  reflexivity.
 Qed.
